@@ -14,6 +14,7 @@ VARIABLE h
 
 Put(f, k, v) == [x \in (DOMAIN f) \cup {k} |-> IF x = k THEN v ELSE f[x]]
 Has(f, k) == k \in DOMAIN f
+Del(f, k) == [x \in (DOMAIN f) \ {k} |-> f[x]]
 EmptyFn == [x \in {} |-> 0]
 NoRun == [st |-> "none", api |-> "", ok |-> TRUE, code |-> 0, coded |-> TRUE, cands |-> {}, stops |-> 0]
 \* run.coded: the result carries a code (FALSE: run() returned an error whose text holds none); exit codes are any
@@ -32,8 +33,16 @@ HInit == [ snd        |-> EmptyFn, \* task id -> [arb, thr, kind, st]; st: "open
                                    \* (stop() on that arbiter, System stop) had started: the loop that runs the task is
                                    \* alive, so the handle Arbiter::current() returned there is not that arbiter
            created    |-> {},      \* arbiters whose Arbiter::new() has returned
-           mustStop   |-> {},      \* arbiters created before the first System stop call started
-           gone       |-> {},      \* arbiters whose join returned / that were observed gone
+           mustStop   |-> {},      \* arbiters that the System stop calls issued so far must stop: those created before
+                                   \* the first stop call started, and those created before a later stop call started
+                                   \* that is known to be buffered together with the first one (see H_SysStopEnd)
+           laterBound |-> {},      \* the arbiters a later stop call added to mustStop (evidence counter only)
+           loopEndSeen|-> {},      \* arbiters whose loop end was observed by H_LoopEnd (evidence counter only)
+           sysOpen    |-> EmptyFn, \* thread -> arbiters created when the System stop call it has open started
+           runEntered |-> FALSE,   \* run() / run_with_code() has been entered
+           polled     |-> FALSE,   \* the runner was polled (block_on) after the first System stop call had started
+           gone       |-> {},      \* arbiters whose loop is known to have ended: join returned, a send was refused,
+                                   \* or the destruction of a task that never completed was observed (H_LoopEnd)
            joined     |-> EmptyFn, \* arb -> "ok" | "timeout"
            early      |-> {},      \* arbiters whose join returned before the first System stop started
            earlyTimeout |-> {},    \* explicit stop()+join() did not return within the watchdog (not C09/C10 text; drift)
@@ -72,11 +81,31 @@ H_Echo(g, a, tid) == [g EXCEPT !.echoes = @ \cup {[arb |-> a, tid |-> tid]}]
 H_EchoSend(g, a, ok) ==
   [g EXCEPT !.echoRefused = IF ~ok /\ g.sysStarted = 0 /\ a \notin g.stopStarted THEN @ \cup {a} ELSE @]
 
-H_SysStopStart(g, code) ==
+\* `t`: the calling thread (a thread has one call open at a time: start and end of a call are matched by it)
+H_SysStopStart(g, code, t) ==
   [g EXCEPT !.sysStarted = @ + 1,
             !.cands = IF g.sysEnded = 0 THEN @ \cup {code} ELSE @,
-            !.mustStop = IF g.sysStarted = 0 THEN g.created ELSE @]
-H_SysStopEnd(g) == [g EXCEPT !.sysEnded = @ + 1]
+            !.mustStop = IF g.sysStarted = 0 THEN g.created ELSE @,
+            !.sysOpen = Put(@, t, g.created)]
+\* "Created before the stop was issued" for a stop call that is not the first one.  The controller handles, in the poll
+\* in which it handles the first Exit and before run can return, every message that is buffered at that moment, and
+\* EVERY Exit stops every arbiter registered when it is handled (only the code is first-wins).  A client knows that a
+\* later stop call is buffered together with the first one when that call has returned before run() / run_with_code()
+\* was entered and the runner was not polled (block_on) since the first stop call started: then every arbiter created
+\* before that call started must stop as well.  (Later stop calls of which this is not known promise nothing new: the
+\* system may be gone by the time they are made.)
+H_SysStopEnd(g, t) ==
+  [g EXCEPT !.sysEnded = @ + 1,
+            !.sysOpen = Del(@, t),
+            !.mustStop = IF ~g.runEntered /\ ~g.polled /\ Has(g.sysOpen, t) THEN @ \cup g.sysOpen[t] ELSE @,
+            !.laterBound = IF ~g.runEntered /\ ~g.polled /\ Has(g.sysOpen, t) THEN @ \cup (g.sysOpen[t] \ g.mustStop) ELSE @]
+H_RunCall(g) == [g EXCEPT !.runEntered = TRUE]
+H_Polled(g) == [g EXCEPT !.polled = @ \/ g.sysStarted > 0]
+
+\* The loop of worker arbiter `a` is seen to have ended without a join: a task that never completes (or a command that
+\* never started) is destroyed only when the receiver is dropped at the end of the loop or, afterwards, by the teardown
+\* of the arbiter's runtime; the destructor of a value it owns observes that moment (on the arbiter's thread).
+H_LoopEnd(g, a) == [g EXCEPT !.gone = @ \cup {a}, !.loopEndSeen = @ \cup {a}]
 
 H_Join(g, a, ok) ==
   IF ok THEN [g EXCEPT !.joined = Put(@, a, "ok"), !.gone = @ \cup {a},
@@ -110,7 +139,8 @@ C09_RunErrOnNonZero ==
   (h.run.st = "ret" /\ h.run.api = "run" /\ h.run.stops > 0) =>
      IF h.run.ok THEN 0 \in h.run.cands ELSE (h.run.cands \ {0}) # {}
 
-\* every arbiter created before the (first) stop was issued ends its loop: joining it returns
+\* every arbiter created before the stop was issued (the first stop call, or a later one known to be handled: see
+\* H_SysStopEnd) ends its loop: joining it returns
 C09_AllRegisteredStop == \A a \in h.mustStop : Has(h.joined, a) => h.joined[a] # "timeout"
 
 \* arbiters that stopped before the stop was issued do not disturb it: with such arbiters present the
@@ -152,7 +182,7 @@ C10_OnOwnThread ==
 \* nothing whose send started after a stop() call on that arbiter ended ever starts
 C10_NothingAfterStop == \A id \in h.afterStop : ~Started(id)
 
-\* a send that starts after the arbiter is gone (join returned) reports false
+\* a send that starts after the arbiter is gone (join returned, or its loop was seen to have ended) reports false
 C10_SpawnFalseWhenGone == \A id \in h.afterGone : h.snd[id].st # "true"
 
 \* join returns only after the loop has ended: no task starts afterwards, and some stop had been issued
@@ -174,6 +204,8 @@ NT_AfterStop == h.afterStop # {}
 NT_AfterGone == h.afterGone # {}
 NT_MustStop == h.mustStop # {}
 NT_TwoStops == h.sysStarted > 1
+NT_LaterStop == h.laterBound # {}   \* a later stop call added arbiters (created between two stop calls) to mustStop
+NT_LoopEndSeen == h.loopEndSeen # {}
 NT_Early == h.early # {}
 NT_SelfSend == \E id \in DOMAIN h.snd : h.snd[id].thr \notin h.clients   \* sent from a worker arbiter's own thread
 NT_Echo == h.echoes # {}
